@@ -44,6 +44,7 @@ func isLocalAlloc(a *ssa.Alloc) bool {
 
 func (fr *Frame) step(st *State, in ssa.Instruction, edgeCond map[[2]int]*Term) {
 	fc := fr.fc
+	fr.cur = in
 	switch x := in.(type) {
 	case *ssa.DebugRef:
 		return
